@@ -34,6 +34,7 @@ const (
 	vActDeferOK          // register a deferred callback that renders
 	vActDeferErr         // register a deferred callback that fails
 	vActBadSyntax        // render text that is not parseable Go
+	vActPanic            // the generator panics (the process dies part-way through the run)
 	vNumActs
 )
 
@@ -108,6 +109,8 @@ func vDo(gen string, c Context, pkgPath, typeName string, seen *int, helper *boo
 		})
 	case vActBadSyntax:
 		c.RenderT("\nvar !!SYNTAX!! = }{\n")
+	case vActPanic:
+		panic("generator bug: the run dies here")
 	}
 	return nil
 }
@@ -117,11 +120,27 @@ func vDo(gen string, c Context, pkgPath, typeName string, seen *int, helper *boo
 type vGenA struct {
 	seen   int
 	helper bool
+	// done: "already processed" set. The registered prototype carries a non-nil
+	// (empty) map, as a generator registered with options would; an instance made
+	// for a package must not share it.
+	done map[string]bool
 }
+
+// vProtoA is the prototype of ga that gets registered with Execute.
+func vProtoA() *vGenA { return &vGenA{done: map[string]bool{}} }
 
 func (*vGenA) Name() string { return "ga" }
 
 func (g *vGenA) GenerateType(c Context, t *types.Named) error {
+	if g.done == nil {
+		g.done = map[string]bool{}
+	}
+	g.done[t.Obj().Pkg().Path()+"."+t.Obj().Name()] = true
+	n := 0
+	for range g.done {
+		n++
+	}
+	vLog("ga:done=" + vItoa(n) + ":" + t.Obj().Pkg().Path() + "." + t.Obj().Name())
 	return vDo("ga", c, t.Obj().Pkg().Path(), t.Obj().Name(), &g.seen, &g.helper)
 }
 
@@ -299,7 +318,7 @@ func Verif_T2_Smoke() {
 	vReset()
 	w := vNewWorld()
 	w.addPkg("p", true, "h1:p", nil, []string{"p.go"}, []vTypeSpec{{name: "T", tags: vEnabled("ga")}})
-	err := w.exec(false, false, nil, &vGenA{})
+	err := w.exec(false, false, nil, vProtoA())
 	verifsym.Assert(err == nil, "Execute fails on a trivial package")
 	_, ok := verifsym.FSGet(w.root + "/p/" + vBase + ".ga.go")
 	verifsym.Assert(ok, "generated file missing")
